@@ -24,7 +24,7 @@ RULE = (
     "distinct (class, parameters, stream digest)."
 )
 ASSUMPTIONS = [
-    "subwindow_size_thresh >= 1 and window_size_thresh >= 1 (smaller values divide by zero in the documented formula)",
+    "subwindow_size_thresh >= 1 (smaller values divide by zero in the documented formula); window_size_thresh >= 0",
     "values compared with rtol 1e-9 scaled to the range / magnitude of everything seen; cut decisions within that band of the "
     "epsilon-cut are adopted from the implementation (counted)",
 ]
@@ -57,7 +57,7 @@ def draw_params(rng):
         delta=float(rng.choice([1e-6, 0.002, 0.05, 0.3, 1.0])),
         max_buckets=int(rng.choice([1, 2, 3, 5])),
         new_sample_thresh=int(rng.choice([1, 2, 5, 8, 32])),
-        window_size_thresh=int(rng.choice([1, 3, 10])),
+        window_size_thresh=int(rng.choice([0, 1, 3, 10])),
         subwindow_size_thresh=int(rng.choice([1, 2, 5])),
         conservative_bound=bool(rng.integers(0, 2)),
     )
